@@ -314,12 +314,92 @@ def returned_layout(binpath, res, seed, n):
                             f"cover a layout with the table {m['signed_ids']} ({m['kind']})", c, o, m["signed_ids"])
 
 
+def layout_gate(binpath, res, seed):
+    """final-product verification checks the layout block against the caller's keys with t = number of keys: the same
+    rule (t >= 1, t distinct keys with valid signatures) seen through that entry point, empty key map included"""
+    import pipeline
+    rng = common.rng_for(seed, PROP, 8800)
+    W = scen.World(binpath)
+    owners = ["ed0", "ed1", "ec-a"]
+    plans, reqs = [], []
+    for i in range(6):
+        layout, plan = pipeline.valid_layout(rng, W, readme=f"gate {i}")
+        links = pipeline.valid_links(rng, W, plan)
+        base = len(reqs)
+        for S in ([], ["ed0"], ["ed0", "ed1"], ["ed0", "ed1", "ec-a"]):
+            reqs.append((layout, S, "new"))
+        for l in links:
+            reqs.append((l["doc"], l["signers"], "new"))
+        plans.append((base, links))
+    wires = scen.sign_all(binpath, reqs, nproc=1)
+    cases = []
+    for base, links in plans:
+        lw = wires[base:base + 4]
+        link_w = wires[base + 4: base + 4 + len(links)]
+        for ns, w in enumerate(lw):
+            files = pipeline.assemble(W, w, list(zip(links, link_w)))
+            for nk in range(0, 4):
+                keys = [[W.kid(k), W.pub(k)] for k in owners[:nk]]
+                v = min(ns, nk)                      # supplied keys that signed
+                expect = "accept" if (nk >= 1 and ns >= nk) else "reject"
+                cases.append(scen.verify_case(w, keys, files, reps=1, meta={"t": nk, "v": v, "signers": ns, "expect": expect}))
+    obs = common.run_batch(binpath, cases)
+    for c, o in zip(cases, obs):
+        m = c["meta"]
+        if scen.harness_failed(o):
+            res.inconclusive.append(f"executor failure: {str(o)[:200]}")
+            continue
+        ok = o["runs"][0]["v"] == "ok"
+        if ok and m["expect"] == "reject":
+            sig = "accept-threshold-zero:layout_gate" if m["t"] == 0 else "accept-below-threshold:layout_gate"
+            res.violate(sig, f"final-product verification accepted a layout carrying {m['signers']} owner signature(s) against {m['t']} supplied key(s) "
+                        f"({m['v']} of them signed)", c, o, "reject")
+        if (not ok) and m["expect"] == "accept":
+            res.inconclusive.append(f"layout_gate positive control rejected: {o['runs'][0].get('e')}")
+        res.note([c["layout"], c["caller_keys"]], True, cls=[f"layout_gate:keys:{m['t']}", "layout_gate:" + ("accepted" if ok else "rejected")])
+
+
+SIBLING = {"rsa-2048-a": "rsa-2048-a512", "rsa-2048-b": "rsa-2048-b512"}
+
+
+def sibling_scheme(binpath, res, seed):
+    """one RSA key pair under its two signature schemes is two keys (two ids): a signature made under one scheme is not
+    a signature of the other key, wherever it is filed"""
+    W = scen.World(binpath)
+    cases = []
+    for i, (a, b) in enumerate(sorted(SIBLING.items())):
+        content = scen.mk_link(f"sibling{i}", {"a": scen.digest(i)}, {"b": scen.digest(9)}, ["c"], {"return-value": 0})
+        wa, wb = scen.sign_all(binpath, [(content, [a], "new"), (content, [b], "new")], nproc=1)
+        sa, sb = wa["signatures"][0]["sig"], wb["signatures"][0]["sig"]
+        ia, ib = W.kid(a), W.kid(b)
+        plans = [
+            ([{"keyid": ia, "sig": sb}], [a], 1, 0, "sibling_scheme_signature_under_this_key's_id"),
+            ([{"keyid": ib, "sig": sa}], [b], 1, 0, "sibling_scheme_signature_under_this_key's_id"),
+            ([{"keyid": ia, "sig": sb}, {"keyid": ib, "sig": sa}], [a, b], 1, 0, "sibling_scheme_signatures_crossed"),
+            ([{"keyid": ia, "sig": sa}, {"keyid": ib, "sig": sb}], [a, b], 2, 2, "sibling_scheme_both_genuine"),
+            ([{"keyid": ia, "sig": sa}, {"keyid": ib, "sig": sa}], [a, b], 2, 1, "sibling_scheme_one_signature_under_both_ids"),
+            ([{"keyid": ib, "sig": sb}], [a], 1, 0, "sibling_scheme_only_the_other_key_signed"),
+        ]
+        for entries, auth, t, v, why in plans:
+            cases.append({"op": "block", "text": json.dumps({"signatures": entries, "signed": content}), "threshold": t,
+                          "auth": [W.pub(k) for k in auth],
+                          "meta": {"t": t, "v": v, "once": True, "why": why, "entries": len(entries)}})
+    obs = common.run_batch(binpath, cases)
+    for c, o in zip(cases, obs):
+        ok = judge(c, o, res)
+        if ok is None:
+            continue
+        res.note([c["text"], c["threshold"]], True, cls=["kind:" + c["meta"]["why"].split("'")[0], "sibling_scheme:" + ("ok" if ok else "err")])
+
+
 def main(ctx):
     res = common.Result()
     n = 300 if not ctx.thorough else 6000
     for p in common.pmap(shard, [(ctx.bin, ctx.seed, s, n) for s in range(common.NPROC)]):
         res.merge(p)
     twins(ctx.bin, res, ctx.seed)
+    sibling_scheme(ctx.bin, res, ctx.seed)
+    layout_gate(ctx.bin, res, ctx.seed)
     for p in common.pmap(crowd.signature_lists, [(ctx.bin, ctx.seed, PROP, s, 7 if not ctx.thorough else 42, judge) for s in range(4 if not ctx.thorough else common.NPROC)]):
         res.merge(p)
     returned_layout(ctx.bin, res, ctx.seed, 40 if not ctx.thorough else 800)
@@ -332,7 +412,7 @@ def main(ctx):
              "(entries, authorised, threshold, content)",
         assumptions=["ground truth of signature validity is by construction (who signed which bytes, what was edited)",
                      "ring's primitives are correct"],
-        required=["crowd:block:ok", "crowd:block:err", "crowd:size:48", "crowd:size:33", "accepted", "rejected", "t=0", "t>n", "kind:dup", "kind:resign", "kind:mislabeled",
+        required=["layout_gate:keys:0", "layout_gate:keys:3", "layout_gate:accepted", "layout_gate:rejected", "sibling_scheme:ok", "sibling_scheme:err", "crowd:block:ok", "crowd:block:err", "crowd:size:48", "crowd:size:33", "accepted", "rejected", "t=0", "t>n", "kind:dup", "kind:resign", "kind:mislabeled",
                   "kind:flipped", "kind:unauthorised", "kind:other_content", "kind:unknown_scheme_key", "kind:auth_key_declares_second_id",
                   "kind:auth_key_declares_other_id", "kind:replayed_after_genuine_verification", "kind:history_genuine_other_content", "kind:twin_control", "kind:twin_signature_on_other_twin",
                   "kind:signature_over_reference_bytes", "kind:returned_layout:control", "kind:returned_layout:foreign_key_under_made_up_id", "once", "repeated-labels",
